@@ -111,6 +111,22 @@ impl Driver {
                 self.checker.before_client_op(*c, op);
             }
         }
+        if let Ok(at) = std::env::var("HQSIM_DUMP_AT")
+            && at.parse::<u64>().ok() == Some(self.world.step.get() + 1)
+            && let Some(core) = self.world.core_snapshot()
+        {
+            println!("--- core before step {at}");
+            for t in &core.tasks {
+                println!("  task {} {:?} rq={} inst={} crash={} deps={:?}", t.id, t.state, t.resource_rq_id, t.instance_id, t.crash_counter, t.deps);
+            }
+            for w in &core.workers {
+                println!("  worker {} {:?} blocked={:?} stop={:?}", w.id, w.assignment, w.blocked_requests, w.stop_reason);
+            }
+            for q in &core.queues {
+                println!("  queue {} ready={:?} prefill={:?}", q.resource_rq_id, q.ready, q.prefill);
+            }
+            println!("  redirects {:?}", core.redirects);
+        }
         let obs = self.world.execute(action);
         if obs.skipped {
             if self.verbose {
@@ -641,31 +657,52 @@ pub fn run_seed(seed: u64, profile: Profile, opts: &RunOptions) -> RunResult {
     finish(d, seed, profile, plan, steps, suffix)
 }
 
-/// Executes an explicit action list (no PRNG involved).
-pub fn replay(file: &ReplayFile, opts: &RunOptions) -> RunResult {
-    let plan = file.plan.clone();
-    let mut d = Driver::new(&plan, &opts.tag, opts.verbose);
+/// Executes an explicit action list (no PRNG involved). If `stop_on` is given the execution
+/// stops as soon as a finding with that `property signature` appears.
+pub fn replay_actions(
+    plan: &RunPlan,
+    seed: u64,
+    actions: &[Action],
+    opts: &RunOptions,
+    stop_on: Option<&str>,
+) -> RunResult {
+    let mut d = Driver::new(plan, &opts.tag, opts.verbose);
     let mut steps = 0;
-    for a in &file.actions {
-        if d.world.dead.is_some() {
+    let hit = |d: &Driver| -> bool {
+        stop_on.is_some_and(|s| {
+            d.checker
+                .findings
+                .iter()
+                .any(|f| format!("{} {}", f.property, f.signature()) == s)
+        })
+    };
+    for a in actions {
+        if d.world.dead.is_some() || hit(&d) {
             break;
         }
         if d.step(a) {
             steps += 1;
         }
     }
-    // The recorded list already contains the fair suffix of the original run; run it again in
-    // case the shrinker removed parts of it.
-    let n_tasks: u64 = d
-        .checker
-        .model
-        .jobs
-        .values()
-        .map(|j| j.tasks.len() as u64)
-        .sum();
-    let bound = 20 * (n_tasks + 50) + 200;
-    let suffix = d.fair_suffix(bound);
-    d.checker
-        .at_quiescence(&d.world, suffix.0, suffix.1 > bound);
-    finish(d, file.seed, plan.profile, plan, steps, suffix)
+    let mut suffix = (false, 0);
+    if !hit(&d) {
+        // The recorded list already contains the fair suffix of the original run; run it again
+        // in case the shrinker removed parts of it.
+        let n_tasks: u64 = d
+            .checker
+            .model
+            .jobs
+            .values()
+            .map(|j| j.tasks.len() as u64)
+            .sum();
+        let bound = 20 * (n_tasks + 50) + 200;
+        suffix = d.fair_suffix(bound);
+        d.checker
+            .at_quiescence(&d.world, suffix.0, suffix.1 > bound);
+    }
+    finish(d, seed, plan.profile, plan.clone(), steps, suffix)
+}
+
+pub fn replay(file: &ReplayFile, opts: &RunOptions) -> RunResult {
+    replay_actions(&file.plan, file.seed, &file.actions, opts, None)
 }
